@@ -5,6 +5,7 @@ import (
 	"errors"
 	gofs "io/fs"
 	gopath "path"
+	"sort"
 	"time"
 )
 
@@ -415,7 +416,15 @@ func ReadDir(fs FS, name string) ([]DirEntry, error) {
 		dirEntries, err := ReadDir(mountFS, subPath)
 		return dirEntries, stripErrPathPrefix(err, name, subPath)
 	}
-	return gofs.ReadDir(fs, name)
+	// same as io/fs.ReadDir, except that a file without ReadDir fails with ErrNotImplemented like every other helper
+	file, err := fs.Open(name)
+	if err != nil {
+		return nil, err
+	}
+	defer func() { _ = file.Close() }()
+	dirEntries, err := ReadDirFile(file, -1)
+	sort.Slice(dirEntries, func(i, j int) bool { return dirEntries[i].Name() < dirEntries[j].Name() })
+	return dirEntries, err
 }
 
 // ReadFile attempts to call an optimized fs.ReadFile(), falls back to io/fs.ReadFile().
